@@ -86,6 +86,7 @@ def gen(rng, k, tight=False):
     alle = np.concatenate([elev, rng.uniform(0.5, 3, nout), rng.uniform(0.0, 0.29, nweak)])
     kind = np.array([0] * len(pts) + [1] * nout + [2] * nweak)
     true_idx = np.vstack([idx, np.full((nout + nweak, 2), np.nan)])
+    frac_idx = np.vstack([idx, np.array(out_idx, dtype=np.float64).reshape(-1, 2), np.full((nweak, 2), np.nan)])
     perm = rng.permutation(len(allp))
     # start perturbation scaled so that every inlier stays within 0.8 * tolerance in the first round
     budget = max(0.0, 0.8 * tol / 1.16 - 0.3)
@@ -94,7 +95,7 @@ def gen(rng, k, tight=False):
         s = 1.0
     dz = rng.uniform(-1, 1, 2) * s * (0.3 if tight else 1.0)
     da, db = rng.uniform(-0.2, 0.2, 2) * s, rng.uniform(-0.2, 0.2, 2) * s
-    return {"pts": allp[perm], "elev": alle[perm], "kind": kind[perm], "true_idx": true_idx[perm],
+    return {"pts": allp[perm], "elev": alle[perm], "kind": kind[perm], "true_idx": true_idx[perm], "frac_idx": frac_idx[perm],
             "zero": zero, "a": a, "b": b, "start_zero": zero + dz, "start_a": a + da, "start_b": b + db,
             "tol": tol, "min_weight": min_weight, "min_match": int(rng.integers(2, 5))}
 
@@ -279,22 +280,49 @@ def theorem_noisy(p):
                 eps = max(eps, abs(pts[k_][c] - (z[c] + i * a[c] + j * b[c])))
     na1, nb1 = a1[0] ** 2 + a1[1] ** 2, b1[0] ** 2 + b1[1] ** 2
     kappa = na1 * nb1 / det1 ** 2
-    out = []
-    for k_ in range(len(pts)):
-        if kinds[k_] != 0 or elev[k_] < mw:
-            continue
-        i, j = (Fraction(int(v)) for v in ti[k_])
+    def fit_error_bound(i, j):
+        """a rational d with  v^T adj(N) v eps^2 sum(w) <= det N d^2  (theorem C06.noise_propagation), v = (1, i, j)"""
         v = (Fraction(1), i, j)
         adj = ((sii * sjj - sij * sij) * v[0] * v[0] + (w1 * sjj - sj * sj) * v[1] * v[1] + (w1 * sii - si * si) * v[2] * v[2]
                + 2 * (sj * sij - si * sjj) * v[0] * v[1] + 2 * (si * sij - sii * sj) * v[0] * v[2]
                + 2 * (si * sj - w1 * sij) * v[1] * v[2])
         x = adj * eps ** 2 * w1 / D
         d = Fraction(math.ceil(math.sqrt(float(x)) * 10 ** 6) + 1, 10 ** 6)
-        if d * d < x:
+        return d if d * d >= x else None
+
+    out = []
+    rejected = []
+    fi_all = np.asarray(p["frac_idx"]) if "frac_idx" in p else None
+    for k_ in range(len(pts)):
+        if kinds[k_] == 1 and fi_all is not None and elev[k_] >= mw:
+            # theorem noisy_selection, outlier clauses: a peak half a cell off along a (or b)
+            fi, fj = (Fraction(float(v)) for v in fi_all[k_])
+            for first in (True, False):
+                h, o = (fi, fj) if first else (fj, fi)
+                if h.denominator != 2:
+                    continue
+                d = fit_error_bound(fi, fj)
+                if d is None:
+                    continue
+                n_ = na1 if first else nb1
+                x_ = 2 * kappa * (eps + d) ** 2 / n_
+                eta = Fraction(math.ceil(math.sqrt(float(x_)) * 10 ** 6) + 1, 10 ** 6)
+                if eta * eta < x_ or eta > Fraction(1, 2):
+                    continue
+                if tol ** 2 * max(Fraction(1), abs(h) + eta) <= (Fraction(1, 2) - eta) ** 2 * n_:
+                    rejected.append(k_)
+                    break
+            continue
+        if kinds[k_] != 0 or elev[k_] < mw:
+            continue
+        i, j = (Fraction(int(v)) for v in ti[k_])
+        d = fit_error_bound(i, j)
+        if d is None:
             continue
         e2 = (eps + d) ** 2
         if 4 * kappa * e2 < tol ** 2 and 8 * kappa * e2 < min(na1, nb1):
             out.append((k_, (int(i), int(j))))
+    p["_theorem_rejected"] = rejected
     return out
 
 
@@ -480,6 +508,10 @@ def run_case(kind, p):
                             msgs.append(f"theorem instance (noisy_inliers_kept): peak {k_} at node {ij} is guaranteed to be kept and is not selected")
                         elif tuple(int(v) for v in ind[pos[k_]]) != ij:
                             msgs.append(f"theorem instance (noisy_inliers_kept): peak {k_} got indices {ind[pos[k_]].tolist()} instead of {ij}")
+                    for k_ in p.get("_theorem_rejected", []):
+                        if r.selector[k_]:
+                            msgs.append(f"theorem instance (noisy_selection): the half-cell outlier {k_} is guaranteed to be rejected "
+                                        f"and is selected")
             if not is_invalid(r):
                 if len(r.indices) != int(r.selector.sum()):
                     msgs.append("len(indices) != number of selected peaks")
